@@ -6,5 +6,6 @@ Tq == {1, 2, 3, 4}
 Tt == {1, 2, 3, 4, 5, 6}
 Tpq == {3, 4, 5}
 Tpt == {4, 5, 6, 7}
-Tsim == {5, 7, 8, 9, 16, 17}
+Tsim == {5, 7, 9, 16, 17}
+ClsSim == {"good", "corrupt", "swapped", "forgedindex", "wrongtotal"}
 =============================================================================
